@@ -1,5 +1,888 @@
 package main
 
-type inventory struct{}
+import (
+	"fmt"
+	"go/ast"
+	"go/constant"
+	"go/token"
+	"go/types"
+	"sort"
+	"strings"
+)
 
-func (pk *pkgInfo) inventories(a *analysis) *inventory { return &inventory{} }
+// Inventories of the panic sources that the nil-flow graphs do not model (all keyed by
+// package|function|normalised text[#k], never by line):
+//
+//	index_sites   x[i], x[i:j] on slices, strings and arrays, with the guard that was recognised
+//	assert_sites  x.(T) without comma-ok
+//	panic_sites   panic(..) calls, integer / and % with a non-constant divisor
+//	              (writes to possibly nil maps are Use sites of kind "mapwrite" in the graphs)
+type invSite struct {
+	Key    string `json:"key"`
+	Guard  string `json:"guard"` // index: range, const-len, last-len, bounded-loop, lt-len, array-const, ... or "unguarded"
+	Detail string `json:"detail,omitempty"`
+	Pos    string `json:"pos"`
+	fn     *fnInfo
+}
+
+type inventory struct {
+	index  []*invSite
+	assert []*invSite
+	panics []*invSite
+}
+
+type invBuilder struct {
+	pk    *pkgInfo
+	fi    *fnInfo
+	textN map[string]int
+	// path from the function body to the current node
+	path []ast.Node
+}
+
+func (ib *invBuilder) key(kind, text string) string {
+	k := kind + ":" + text
+	ib.textN[k]++
+	s := "parser|" + ib.fi.name + "|" + text
+	if n := ib.textN[k]; n > 1 {
+		s += fmt.Sprintf("#%d", n)
+	}
+	return s
+}
+
+func (pk *pkgInfo) inventories(a *analysis) *inventory {
+	inv := &inventory{}
+	for _, fi := range a.funcs {
+		ib := &invBuilder{pk: pk, fi: fi, textN: map[string]int{}}
+		ib.walk(fi.decl.Body, inv)
+	}
+	return inv
+}
+
+func (ib *invBuilder) walk(root ast.Node, inv *inventory) {
+	pk := ib.pk
+	var visit func(n ast.Node) bool
+	visit = func(n ast.Node) bool {
+		if n == nil {
+			ib.path = ib.path[:len(ib.path)-1]
+			return false
+		}
+		ib.path = append(ib.path, n)
+		switch x := n.(type) {
+		case *ast.IndexExpr:
+			xt := pk.info.Types[x.X].Type
+			if xt == nil {
+				break
+			}
+			if _, isSig := xt.(*types.Signature); isSig {
+				break
+			}
+			switch xt.Underlying().(type) {
+			case *types.Map:
+				// never panics on read; writes to nil maps are Use sites
+			default:
+				s := &invSite{Key: ib.key("index", pk.text(x)), Pos: pk.posString(x.Pos()), fn: ib.fi}
+				s.Guard, s.Detail = ib.indexGuard(x.X, x.Index, nil, false)
+				inv.index = append(inv.index, s)
+			}
+		case *ast.SliceExpr:
+			s := &invSite{Key: ib.key("index", pk.text(x)), Pos: pk.posString(x.Pos()), fn: ib.fi}
+			s.Guard, s.Detail = ib.sliceGuard(x)
+			inv.index = append(inv.index, s)
+		case *ast.TypeAssertExpr:
+			if x.Type == nil {
+				break // type switch
+			}
+			if !ib.commaOk(x) {
+				s := &invSite{Key: ib.key("assert", pk.text(x)), Pos: pk.posString(x.Pos()), fn: ib.fi}
+				s.Guard, s.Detail = ib.assertGuard(x)
+				inv.assert = append(inv.assert, s)
+			}
+		case *ast.CallExpr:
+			if id, ok := ast.Unparen(x.Fun).(*ast.Ident); ok && id.Name == "panic" {
+				if _, isB := pk.info.Uses[id].(*types.Builtin); isB {
+					inv.panics = append(inv.panics, &invSite{Key: ib.key("panic", pk.text(x)), Guard: "explicit-panic",
+						Pos: pk.posString(x.Pos()), fn: ib.fi})
+				}
+			}
+		case *ast.BinaryExpr:
+			if x.Op == token.QUO || x.Op == token.REM {
+				ib.divSite(x, x.Y, inv)
+			}
+		case *ast.AssignStmt:
+			if x.Tok == token.QUO_ASSIGN || x.Tok == token.REM_ASSIGN {
+				ib.divSite(x, x.Rhs[0], inv)
+			}
+		}
+		return true
+	}
+	ast.Inspect(root, func(n ast.Node) bool { return visit(n) })
+}
+
+func (ib *invBuilder) divSite(n ast.Node, div ast.Expr, inv *inventory) {
+	pk := ib.pk
+	t := pk.info.Types[div].Type
+	if t == nil {
+		return
+	}
+	b, ok := t.Underlying().(*types.Basic)
+	if !ok || b.Info()&types.IsInteger == 0 {
+		return
+	}
+	if v := pk.info.Types[div].Value; v != nil {
+		if constant.Sign(v) != 0 {
+			return
+		}
+	}
+	inv.panics = append(inv.panics, &invSite{Key: ib.key("div", pk.text(n)), Guard: "integer-division", Pos: pk.posString(n.Pos()), fn: ib.fi})
+}
+
+// commaOk: the assertion is the right-hand side of a two-valued assignment / declaration
+func (ib *invBuilder) commaOk(x *ast.TypeAssertExpr) bool {
+	for i := len(ib.path) - 2; i >= 0; i-- {
+		switch p := ib.path[i].(type) {
+		case *ast.ParenExpr:
+			continue
+		case *ast.AssignStmt:
+			return len(p.Lhs) == 2 && len(p.Rhs) == 1 && ast.Unparen(p.Rhs[0]) == ast.Expr(x)
+		case *ast.ValueSpec:
+			return len(p.Names) == 2 && len(p.Values) == 1 && ast.Unparen(p.Values[0]) == ast.Expr(x)
+		default:
+			return false
+		}
+	}
+	return false
+}
+
+// assertGuard: an unchecked assertion x.(T) is guarded when it sits in a type-switch clause or an
+// `if _, ok := x.(T); ok` on the same operand text and the same type
+func (ib *invBuilder) assertGuard(x *ast.TypeAssertExpr) (string, string) {
+	pk := ib.pk
+	want := pk.text(x.X)
+	wantT := pk.text(x.Type)
+	for i := len(ib.path) - 2; i >= 0; i-- {
+		switch p := ib.path[i].(type) {
+		case *ast.CaseClause:
+			// enclosing type switch on the same operand, single type equal to T
+			if i >= 2 {
+				if ts, ok := ib.path[i-2].(*ast.TypeSwitchStmt); ok {
+					var subj ast.Expr
+					switch a := ts.Assign.(type) {
+					case *ast.ExprStmt:
+						if ta, ok := ast.Unparen(a.X).(*ast.TypeAssertExpr); ok {
+							subj = ta.X
+						}
+					case *ast.AssignStmt:
+						if ta, ok := ast.Unparen(a.Rhs[0]).(*ast.TypeAssertExpr); ok {
+							subj = ta.X
+						}
+					}
+					if subj != nil && pk.text(subj) == want && len(p.List) == 1 && pk.text(p.List[0]) == wantT &&
+						!ib.assignedBetween(want, p.Pos(), x.Pos()) {
+						return "type-switch-case", ""
+					}
+				}
+			}
+		case *ast.IfStmt:
+			if as, ok := p.Init.(*ast.AssignStmt); ok && len(as.Lhs) == 2 && len(as.Rhs) == 1 && within(p.Body, x) {
+				if ta, ok := ast.Unparen(as.Rhs[0]).(*ast.TypeAssertExpr); ok && ta.Type != nil &&
+					pk.text(ta.X) == want && pk.text(ta.Type) == wantT {
+					if okid, ok := as.Lhs[1].(*ast.Ident); ok && condImplies(p.Cond, okid.Name) &&
+						!ib.assignedBetween(want, p.Body.Pos(), x.Pos()) {
+						return "comma-ok-before", ""
+					}
+				}
+			}
+		}
+	}
+	return "unguarded", ""
+}
+
+func within(outer ast.Node, inner ast.Node) bool {
+	return outer != nil && outer.Pos() <= inner.Pos() && inner.End() <= outer.End()
+}
+
+// condImplies: cond is `ok` or a && chain containing `ok`
+func condImplies(cond ast.Expr, name string) bool {
+	switch x := ast.Unparen(cond).(type) {
+	case *ast.Ident:
+		return x.Name == name
+	case *ast.BinaryExpr:
+		if x.Op == token.LAND {
+			return condImplies(x.X, name) || condImplies(x.Y, name)
+		}
+	}
+	return false
+}
+
+// ---- length facts ----
+
+// need describes what an index expression requires: len(X) >= min, or idx < len(X) for a variable idx
+type need struct {
+	x      string // text of the indexed expression
+	min    int    // required minimal length (when idxVar == "")
+	idxVar string // variable index: requires idxVar < len(x)
+}
+
+// lenFact: cond (taken as `truth`) implies len(x) >= result (0 when nothing is implied)
+func (ib *invBuilder) lenFact(cond ast.Expr, truth bool, x string) int {
+	pk := ib.pk
+	switch c := ast.Unparen(cond).(type) {
+	case *ast.CallExpr:
+		// strings.HasPrefix(x, "lit") / strings.HasSuffix(x, "lit")
+		if se, ok := c.Fun.(*ast.SelectorExpr); ok && truth && len(c.Args) == 2 && (se.Sel.Name == "HasPrefix" || se.Sel.Name == "HasSuffix") {
+			if fo, ok := pk.info.Uses[se.Sel].(*types.Func); ok && fo.Pkg() != nil && fo.Pkg().Path() == "strings" && pk.text(c.Args[0]) == x {
+				if v := pk.info.Types[c.Args[1]].Value; v != nil && v.Kind() == constant.String {
+					return len(constant.StringVal(v))
+				}
+			}
+		}
+	case *ast.UnaryExpr:
+		if c.Op == token.NOT {
+			return ib.lenFact(c.X, !truth, x)
+		}
+	case *ast.BinaryExpr:
+		switch c.Op {
+		case token.LAND:
+			if truth {
+				return maxInt(ib.lenFact(c.X, true, x), ib.lenFact(c.Y, true, x))
+			}
+			return 0
+		case token.LOR:
+			if !truth {
+				return maxInt(ib.lenFact(c.X, false, x), ib.lenFact(c.Y, false, x))
+			}
+			return 0
+		case token.GTR, token.GEQ, token.LSS, token.LEQ, token.EQL, token.NEQ:
+			op := c.Op
+			l, r := c.X, c.Y
+			isLen := func(e ast.Expr) bool { return pk.text(e) == "len("+x+")" }
+			cval := func(e ast.Expr) (int, bool) {
+				if v := pk.info.Types[e].Value; v != nil && v.Kind() == constant.Int {
+					n, ok := constant.Int64Val(v)
+					return int(n), ok
+				}
+				return 0, false
+			}
+			if isLen(r) {
+				// c op len  ==  len op' c
+				l, r = r, l
+				switch op {
+				case token.GTR:
+					op = token.LSS
+				case token.GEQ:
+					op = token.LEQ
+				case token.LSS:
+					op = token.GTR
+				case token.LEQ:
+					op = token.GEQ
+				}
+			}
+			if !isLen(l) {
+				return 0
+			}
+			n, ok := cval(r)
+			if !ok {
+				return 0
+			}
+			if !truth {
+				switch op {
+				case token.GTR:
+					op = token.LEQ
+				case token.GEQ:
+					op = token.LSS
+				case token.LSS:
+					op = token.GEQ
+				case token.LEQ:
+					op = token.GTR
+				case token.EQL:
+					op = token.NEQ
+				case token.NEQ:
+					op = token.EQL
+				}
+			}
+			switch op {
+			case token.GTR:
+				return n + 1
+			case token.GEQ:
+				return n
+			case token.EQL:
+				return n
+			case token.NEQ:
+				if n == 0 {
+					return 1
+				}
+			}
+		}
+	}
+	return 0
+}
+
+// ltFact: cond (taken as truth) implies idx < len(x)
+func (ib *invBuilder) ltFact(cond ast.Expr, truth bool, idx, x string) bool {
+	pk := ib.pk
+	switch c := ast.Unparen(cond).(type) {
+	case *ast.UnaryExpr:
+		if c.Op == token.NOT {
+			return ib.ltFact(c.X, !truth, idx, x)
+		}
+	case *ast.BinaryExpr:
+		switch c.Op {
+		case token.LAND:
+			return truth && (ib.ltFact(c.X, true, idx, x) || ib.ltFact(c.Y, true, idx, x))
+		case token.LOR:
+			return !truth && (ib.ltFact(c.X, false, idx, x) || ib.ltFact(c.Y, false, idx, x))
+		case token.LSS:
+			return truth && pk.text(c.X) == idx && pk.text(c.Y) == "len("+x+")"
+		case token.GTR:
+			return truth && pk.text(c.Y) == idx && pk.text(c.X) == "len("+x+")"
+		case token.GEQ:
+			return !truth && pk.text(c.X) == idx && pk.text(c.Y) == "len("+x+")"
+		case token.LEQ:
+			return !truth && pk.text(c.Y) == idx && pk.text(c.X) == "len("+x+")"
+		}
+	}
+	return false
+}
+
+func maxInt(a, b int) int {
+	if a > b {
+		return a
+	}
+	return b
+}
+
+func terminates(b *ast.BlockStmt) bool {
+	if b == nil || len(b.List) == 0 {
+		return false
+	}
+	switch s := b.List[len(b.List)-1].(type) {
+	case *ast.ReturnStmt:
+		return true
+	case *ast.BranchStmt:
+		return s.Tok == token.BREAK || s.Tok == token.CONTINUE || s.Tok == token.GOTO
+	case *ast.ExprStmt:
+		if c, ok := s.X.(*ast.CallExpr); ok {
+			if id, ok := c.Fun.(*ast.Ident); ok && id.Name == "panic" {
+				return true
+			}
+		}
+	}
+	return false
+}
+
+// rootName: the variable at the root of a selector/index chain
+func rootName(e ast.Expr) string {
+	for {
+		switch x := ast.Unparen(e).(type) {
+		case *ast.Ident:
+			return x.Name
+		case *ast.SelectorExpr:
+			e = x.X
+		case *ast.IndexExpr:
+			e = x.X
+		case *ast.StarExpr:
+			e = x.X
+		case *ast.CallExpr:
+			return ""
+		default:
+			return ""
+		}
+	}
+}
+
+// assignedBetween: some statement positioned in (from, to) assigns the expression text x, a prefix of it
+// (its root variable or an intermediate field) or -- for field paths -- calls a function that may
+// assign the field
+func (ib *invBuilder) assignedBetween(x string, from, to token.Pos) bool {
+	return ib.assignedIn(ib.fi.decl.Body, x, from, to)
+}
+
+func (ib *invBuilder) assignedIn(root ast.Node, x string, from, to token.Pos) bool {
+	pk := ib.pk
+	found := false
+	hit := func(l ast.Expr) {
+		t := pk.text(l)
+		if t == x || strings.HasPrefix(x, t+".") || strings.HasPrefix(x, t+"[") {
+			found = true
+		}
+	}
+	isPath := strings.ContainsAny(x, ".[")
+	ast.Inspect(root, func(n ast.Node) bool {
+		if n == nil || found {
+			return false
+		}
+		if n.End() <= from || n.Pos() >= to {
+			// outside the window (a node spanning the window is still descended into)
+			if n.Pos() >= to || n.End() <= from {
+				return false
+			}
+		}
+		switch s := n.(type) {
+		case *ast.AssignStmt:
+			// the assignment that contains the use takes effect after the use was evaluated
+			if s.Pos() > from && s.Pos() < to && s.End() <= to {
+				for _, l := range s.Lhs {
+					hit(l)
+				}
+			}
+		case *ast.IncDecStmt:
+			if s.Pos() > from && s.Pos() < to {
+				hit(s.X)
+			}
+		case *ast.RangeStmt:
+			if s.Pos() > from && s.Pos() < to {
+				if s.Key != nil {
+					hit(s.Key)
+				}
+				if s.Value != nil {
+					hit(s.Value)
+				}
+			}
+		case *ast.UnaryExpr:
+			if s.Op == token.AND && s.Pos() > from && s.Pos() < to {
+				hit(s.X)
+			}
+		case *ast.CallExpr:
+			if isPath && s.Pos() > from && s.Pos() < to {
+				if c := pk.calleeOf(s); c != nil {
+					// the callee may assign the last field of the path
+					if i := strings.LastIndex(x, "."); i >= 0 {
+						f := x[i+1:]
+						if j := strings.IndexAny(f, "[("); j >= 0 {
+							f = f[:j]
+						}
+						for w := range c.writes {
+							if w == "*" || strings.HasSuffix(w, "."+f) || strings.HasSuffix(w, ".*") {
+								found = true
+							}
+						}
+					}
+				}
+			}
+		}
+		return !found
+	})
+	return found
+}
+
+// enclosingLoops: loop statements on the path that contain pos but start after `after`
+func (ib *invBuilder) loopsBetween(after token.Pos) []ast.Node {
+	var ls []ast.Node
+	for _, n := range ib.path {
+		switch n.(type) {
+		case *ast.ForStmt, *ast.RangeStmt:
+			if n.Pos() > after {
+				ls = append(ls, n)
+			}
+		}
+	}
+	return ls
+}
+
+// stable: x (and idx) are not assigned between the guard and the use, nor anywhere in a loop that
+// encloses the use but not the guard
+func (ib *invBuilder) stable(names []string, guard, use token.Pos) bool {
+	for _, nm := range names {
+		if nm == "" {
+			continue
+		}
+		if ib.assignedBetween(nm, guard, use) {
+			return false
+		}
+		for _, l := range ib.loopsBetween(guard) {
+			if ib.assignedIn(l, nm, l.Pos(), l.End()) {
+				return false
+			}
+		}
+	}
+	return true
+}
+
+// facts walks from the use outwards and reports whether the need is met; it returns the guard kind
+func (ib *invBuilder) guarded(nd need, use ast.Node) (string, string) {
+	names := []string{nd.x}
+	if nd.idxVar != "" {
+		names = append(names, nd.idxVar)
+	}
+	check := func(cond ast.Expr, truth bool, guardPos token.Pos, kind string) (string, bool) {
+		if cond == nil {
+			return "", false
+		}
+		ok := false
+		if nd.idxVar != "" {
+			ok = ib.ltFact(cond, truth, nd.idxVar, nd.x)
+		} else {
+			ok = nd.min > 0 && ib.lenFact(cond, truth, nd.x) >= nd.min
+		}
+		if ok && ib.stable(names, guardPos, use.Pos()) {
+			return kind, true
+		}
+		return "", false
+	}
+	for i := len(ib.path) - 2; i >= 0; i-- {
+		child := ib.path[i+1]
+		switch p := ib.path[i].(type) {
+		case *ast.BinaryExpr:
+			if p.Op == token.LAND && child == ast.Node(p.Y) {
+				if k, ok := check(p.X, true, p.X.End(), "and-chain"); ok {
+					return k, ib.pk.text(p.X)
+				}
+			}
+			if p.Op == token.LOR && child == ast.Node(p.Y) {
+				if k, ok := check(p.X, false, p.X.End(), "or-chain"); ok {
+					return k, ib.pk.text(p.X)
+				}
+			}
+		case *ast.IfStmt:
+			if child == ast.Node(p.Body) {
+				if k, ok := check(p.Cond, true, p.Cond.End(), "if-len"); ok {
+					return k, ib.pk.text(p.Cond)
+				}
+			}
+			if p.Else != nil && child == ast.Node(p.Else) {
+				if k, ok := check(p.Cond, false, p.Cond.End(), "else-len"); ok {
+					return k, ib.pk.text(p.Cond)
+				}
+			}
+		case *ast.ForStmt:
+			if child == ast.Node(p.Body) || (p.Post != nil && child == ast.Node(p.Post)) {
+				if p.Cond != nil {
+					// the condition holds at the start of every iteration; the body must not change the
+					// operands before the use
+					ok := false
+					if nd.idxVar != "" {
+						ok = ib.ltFact(p.Cond, true, nd.idxVar, nd.x)
+					} else {
+						ok = nd.min > 0 && ib.lenFact(p.Cond, true, nd.x) >= nd.min
+					}
+					if ok {
+						good := true
+						for _, nm := range names {
+							if ib.assignedIn(p.Body, nm, p.Body.Pos(), use.Pos()) {
+								good = false
+							}
+						}
+						// an inner loop between could re-run after a change
+						for _, l := range ib.loopsBetween(p.Pos()) {
+							for _, nm := range names {
+								if ib.assignedIn(l, nm, l.Pos(), l.End()) {
+									good = false
+								}
+							}
+						}
+						if good {
+							return "bounded-loop", ib.pk.text(p.Cond)
+						}
+					}
+				}
+			}
+		case *ast.CaseClause:
+			// tagless switch: case cond:
+			if i >= 2 {
+				if sw, ok := ib.path[i-2].(*ast.SwitchStmt); ok && sw.Tag == nil {
+					for _, e := range p.List {
+						if len(p.List) == 1 {
+							if k, ok := check(e, true, e.End(), "case-len"); ok {
+								return k, ib.pk.text(e)
+							}
+						}
+					}
+				}
+			}
+		case *ast.BlockStmt:
+			// earlier siblings of the form `if cond { ...; return }`
+			for _, s := range p.List {
+				if s.End() > child.Pos() {
+					break
+				}
+				if is, ok := s.(*ast.IfStmt); ok && is.Else == nil && terminates(is.Body) {
+					if k, ok := check(is.Cond, false, is.End(), "early-exit"); ok {
+						return k, ib.pk.text(is.Cond)
+					}
+				}
+			}
+		}
+	}
+	return "unguarded", ""
+}
+
+// nonNegVar: every assignment to the local variable named idx is `:= c`, `= c` (c >= 0), ++, += c
+func (ib *invBuilder) nonNegVar(idx string) bool {
+	pk := ib.pk
+	ok := true
+	seen := false
+	nonneg := func(e ast.Expr) bool {
+		if v := pk.info.Types[e].Value; v != nil && v.Kind() == constant.Int {
+			return constant.Sign(v) >= 0
+		}
+		// len(..) and sums of non-negative things
+		if c, isCall := ast.Unparen(e).(*ast.CallExpr); isCall {
+			if id, isId := c.Fun.(*ast.Ident); isId && id.Name == "len" {
+				return true
+			}
+		}
+		if b, isBin := ast.Unparen(e).(*ast.BinaryExpr); isBin && b.Op == token.ADD {
+			l := pk.text(b.X) == idx
+			if v := pk.info.Types[b.Y].Value; v != nil && constant.Sign(v) >= 0 && l {
+				return true
+			}
+		}
+		return false
+	}
+	ast.Inspect(ib.fi.decl.Body, func(n ast.Node) bool {
+		switch s := n.(type) {
+		case *ast.AssignStmt:
+			for i, l := range s.Lhs {
+				if id, isId := l.(*ast.Ident); isId && id.Name == idx {
+					seen = true
+					switch s.Tok {
+					case token.DEFINE, token.ASSIGN:
+						if len(s.Lhs) != len(s.Rhs) || !nonneg(s.Rhs[i]) {
+							ok = false
+						}
+					case token.ADD_ASSIGN:
+						if !nonneg(s.Rhs[0]) {
+							ok = false
+						}
+					default:
+						ok = false
+					}
+				}
+			}
+		case *ast.IncDecStmt:
+			if id, isId := s.X.(*ast.Ident); isId && id.Name == idx && s.Tok == token.DEC {
+				ok = false
+			}
+		case *ast.RangeStmt:
+			for _, e := range []ast.Expr{s.Key} {
+				if id, isId := e.(*ast.Ident); isId && id.Name == idx {
+					seen = true
+				}
+			}
+			if id, isId := s.Value.(*ast.Ident); isId && id.Name == idx {
+				ok = false
+			}
+		case *ast.UnaryExpr:
+			if s.Op == token.AND {
+				if id, isId := ast.Unparen(s.X).(*ast.Ident); isId && id.Name == idx {
+					ok = false
+				}
+			}
+		}
+		return true
+	})
+	return ok && seen
+}
+
+// indexGuard classifies x[idx]
+func (ib *invBuilder) indexGuard(x, idx ast.Expr, use ast.Node, _ bool) (string, string) {
+	pk := ib.pk
+	xs := pk.text(x)
+	if use == nil {
+		use = ib.path[len(ib.path)-1]
+	}
+	xt := pk.info.Types[x].Type
+	// constant index into an array (checked by the compiler)
+	if a, ok := xt.Underlying().(*types.Array); ok {
+		if v := pk.info.Types[idx].Value; v != nil {
+			if n, ok := constant.Int64Val(v); ok && n >= 0 && n < a.Len() {
+				return "array-const", ""
+			}
+		}
+	}
+	// constant string indexed by a constant
+	if v := pk.info.Types[idx].Value; v != nil && v.Kind() == constant.Int {
+		n, _ := constant.Int64Val(v)
+		if n < 0 {
+			return "unguarded", "negative constant"
+		}
+		if n == 0 && ib.splitResult(x, use) {
+			return "split-result", ""
+		}
+		return ib.guarded(need{x: xs, min: int(n) + 1}, use)
+	}
+	// len(x) - k
+	if b, ok := ast.Unparen(idx).(*ast.BinaryExpr); ok && b.Op == token.SUB && pk.text(b.X) == "len("+xs+")" {
+		if v := pk.info.Types[b.Y].Value; v != nil {
+			if k, ok := constant.Int64Val(v); ok && k >= 1 {
+				g, d := ib.guarded(need{x: xs, min: int(k)}, use)
+				if g != "unguarded" {
+					return "last-" + g, d
+				}
+				return g, d
+			}
+		}
+	}
+	// variable index
+	if id, ok := ast.Unparen(idx).(*ast.Ident); ok {
+		// key of an enclosing range over the same expression
+		for i := len(ib.path) - 2; i >= 0; i-- {
+			if r, ok := ib.path[i].(*ast.RangeStmt); ok && r.Key != nil && pk.text(r.Key) == id.Name && pk.text(r.X) == xs &&
+				within(r.Body, use) {
+				if !ib.assignedIn(r.Body, id.Name, r.Body.Pos(), r.Body.End()) && !ib.assignedIn(r.Body, xs, r.Body.Pos(), use.Pos()) {
+					return "range", ""
+				}
+			}
+		}
+		g, d := ib.guarded(need{x: xs, idxVar: id.Name}, use)
+		if g != "unguarded" {
+			if !ib.nonNegVar(id.Name) {
+				return "unguarded", "index variable may be negative"
+			}
+			return "lt-" + g, d
+		}
+	}
+	return "unguarded", ""
+}
+
+func (ib *invBuilder) sliceGuard(x *ast.SliceExpr) (string, string) {
+	pk := ib.pk
+	xs := pk.text(x.X)
+	cint := func(e ast.Expr) (int, bool) {
+		if e == nil {
+			return 0, false
+		}
+		if v := pk.info.Types[e].Value; v != nil && v.Kind() == constant.Int {
+			n, ok := constant.Int64Val(v)
+			return int(n), ok
+		}
+		return 0, false
+	}
+	lenMinus := func(e ast.Expr) (int, bool) {
+		if e == nil {
+			return 0, false
+		}
+		if pk.text(e) == "len("+xs+")" {
+			return 0, true
+		}
+		if b, ok := ast.Unparen(e).(*ast.BinaryExpr); ok && b.Op == token.SUB && pk.text(b.X) == "len("+xs+")" {
+			if k, ok := cint(b.Y); ok && k >= 0 {
+				return k, true
+			}
+		}
+		return 0, false
+	}
+	if x.Max != nil {
+		return "unguarded", "three-index slice"
+	}
+	switch {
+	case x.Low == nil && x.High == nil:
+		return "full-slice", ""
+	case x.High == nil:
+		// x[c:]
+		if c, ok := cint(x.Low); ok && c >= 0 {
+			if c == 0 {
+				return "full-slice", ""
+			}
+			return ib.guarded(need{x: xs, min: c}, x)
+		}
+		if k, ok := lenMinus(x.Low); ok {
+			if k == 0 {
+				return "full-slice", ""
+			}
+			return ib.guarded(need{x: xs, min: k}, x)
+		}
+		// x[v+1:] with v < len(x)
+		if b, ok := ast.Unparen(x.Low).(*ast.BinaryExpr); ok && b.Op == token.ADD {
+			if id, ok := ast.Unparen(b.X).(*ast.Ident); ok {
+				if c, ok := cint(b.Y); ok && c == 1 {
+					g, d := ib.guarded(need{x: xs, idxVar: id.Name}, x)
+					if g != "unguarded" && ib.nonNegVar(id.Name) {
+						return "lt-" + g, d
+					}
+				}
+			}
+		}
+	case x.Low == nil:
+		// x[:len(x)-k], x[:c]
+		if k, ok := lenMinus(x.High); ok {
+			if k == 0 {
+				return "full-slice", ""
+			}
+			return ib.guarded(need{x: xs, min: k}, x)
+		}
+		if c, ok := cint(x.High); ok && c >= 0 {
+			if c == 0 {
+				return "full-slice", ""
+			}
+			return ib.guarded(need{x: xs, min: c}, x)
+		}
+	default:
+		// x[a:b] with constants a <= b
+		a, ok1 := cint(x.Low)
+		b, ok2 := cint(x.High)
+		if ok1 && ok2 && 0 <= a && a <= b {
+			return ib.guarded(need{x: xs, min: b}, x)
+		}
+		if k, ok := lenMinus(x.High); ok && ok1 && a >= 0 {
+			return ib.guarded(need{x: xs, min: a + k}, x)
+		}
+	}
+	return "unguarded", ""
+}
+
+func sortSites(ss []*invSite) {
+	sort.SliceStable(ss, func(i, j int) bool { return ss[i].Key < ss[j].Key })
+}
+
+// splitResult: x is a local variable whose only assignment is `x := strings.Split(s, sep)` or
+// `strings.SplitN(s, sep, n)` with a non-empty constant sep and a constant n > 0: at least one element
+func (ib *invBuilder) splitResult(x ast.Expr, use ast.Node) bool {
+	pk := ib.pk
+	id, ok := ast.Unparen(x).(*ast.Ident)
+	if !ok {
+		return false
+	}
+	o, _ := pk.info.Uses[id].(*types.Var)
+	if o == nil {
+		return false
+	}
+	count, good := 0, false
+	ast.Inspect(ib.fi.decl.Body, func(n ast.Node) bool {
+		switch s := n.(type) {
+		case *ast.AssignStmt:
+			for i, l := range s.Lhs {
+				lid, isId := l.(*ast.Ident)
+				if !isId || pk.info.ObjectOf(lid) != types.Object(o) {
+					continue
+				}
+				count++
+				if len(s.Lhs) != len(s.Rhs) {
+					continue
+				}
+				c, isCall := ast.Unparen(s.Rhs[i]).(*ast.CallExpr)
+				if !isCall {
+					continue
+				}
+				se, isSel := c.Fun.(*ast.SelectorExpr)
+				if !isSel {
+					continue
+				}
+				fo, isF := pk.info.Uses[se.Sel].(*types.Func)
+				if !isF || fo.Pkg() == nil || fo.Pkg().Path() != "strings" {
+					continue
+				}
+				sepOK := func(e ast.Expr) bool {
+					v := pk.info.Types[e].Value
+					return v != nil && v.Kind() == constant.String && constant.StringVal(v) != ""
+				}
+				switch {
+				case fo.Name() == "Split" && len(c.Args) == 2 && sepOK(c.Args[1]):
+					good = true
+				case fo.Name() == "SplitN" && len(c.Args) == 3 && sepOK(c.Args[1]):
+					if v := pk.info.Types[c.Args[2]].Value; v != nil && constant.Sign(v) > 0 {
+						good = true
+					}
+				}
+			}
+		case *ast.UnaryExpr:
+			if s.Op == token.AND {
+				if aid, isId := ast.Unparen(s.X).(*ast.Ident); isId && pk.info.Uses[aid] == types.Object(o) {
+					count += 2
+				}
+			}
+		}
+		return true
+	})
+	return count == 1 && good
+}
